@@ -63,7 +63,10 @@ func c03Gen(r *Rng, i int, thorough bool) c03Case {
 		maxn = 64
 	}
 	n := r.Intn(maxn + 1)
-	if r.Chance(8) {
+	if i%97 == 5 || i%97 == 6 || i%97 == 7 {
+		n = 62 + i%97 - 4 // 63, 64, 65 bounds in every run ("1..64 bounds" and one beyond)
+	}
+	if r.Chance(8) && n < 63 {
 		c.Nil = true
 		c.Dur = false
 		n = 0
@@ -187,6 +190,14 @@ func c03Gen(r *Rng, i int, thorough bool) c03Case {
 			} else {
 				c.Ops = append(c.Ops, c03Op{Op: "v", V: v})
 			}
+		}
+	}
+	if len(c.Spec) >= 63 {
+		// the last bucket of a long specification: samples above every bound
+		if c.Dur {
+			c.Ops = append(c.Ops, c03Op{Op: "d", V: math.MaxInt64}, c03Op{Op: "d", V: math.MaxInt64 - 1})
+		} else {
+			c.Ops = append(c.Ops, c03Op{Op: "v", V: fbits(math.MaxFloat64)}, c03Op{Op: "v", V: fbits(math.Inf(1))})
 		}
 	}
 	c.Ops = append(c.Ops, c03Op{Op: "pass"})
